@@ -3,6 +3,7 @@ import Sqfs.Model.Obj
 import Sqfs.Model.ObjKinds
 import Sqfs.Model.C19Readers
 import Sqfs.Model.RbTree
+import Sqfs.Model.C19Pool
 import Sqfs.Model.C19Units
 /-!
 `sqfsmodel c19 describe <kind>` / `describe-current <kind>`: the per-kind facts of the hook descriptions.
@@ -172,7 +173,7 @@ def modelOp (h : Heap) (id : Nat) (text : String) (reshape postCopy : Bool) : He
 def stepLive (D : Kind → CopyDesc) (w : World) (line : String) : World × String :=
   match words line with
   | "scenario" :: _tag :: kname :: _ =>
-    match Kind.ofName (if kname = "comp" then "gzip" else if kname = "wfile" then "file" else kname) with
+    match Kind.ofName (if kname = "comp" then "gzip" else if kname = "wfile" ∨ kname = "nocopy" then "file" else kname) with
     | none => (World.init, "bad-op")
     | some k0 =>
       -- `comp <name> <mode>`: the concrete compressor is the 4th word
@@ -189,7 +190,8 @@ def stepLive (D : Kind → CopyDesc) (w : World) (line : String) : World × Stri
       let (h, t2) := construct h k f c
       -- a file opened for writing has a copy hook that refuses (`stdio_copy`: `!readonly` → NULL): as far as `sqfs_copy`
       -- is concerned the object has no copy hook
-      let h := if kname = "wfile" then [o, t1, t2].foldl (fun (h : Heap) id => match h.objs id with
+      -- `nocopy`: a library object created with `sqfs_object_init(obj, destroy, NULL)` (an input stream): `copy == NULL`
+      let h := if kname = "wfile" ∨ kname = "nocopy" then [o, t1, t2].foldl (fun (h : Heap) id => match h.objs id with
           | some ob => { h with objs := upd h.objs id (some { ob with copy := false }) }
           | none => h) h else h
       (⟨h, k, f, c, usesEnv k, [some o, none, some t1, some t2], true⟩, "scenario")
@@ -227,6 +229,39 @@ def stepLive (D : Kind → CopyDesc) (w : World) (line : String) : World × Stri
         | none => (w, s!"drop {t} file={if w.envAlive then rcOf h w.file else 0} cmp={if w.envAlive then rcOf h w.cmp else 0}")
       | none => (w, "no-object")
     | none => (w, "bad-op")
+  | ["recopy"] =>
+    -- the copy is replaced by a copy of itself, the first copy is released
+    match w.obj 1 with
+    | some c =>
+      let (h, c2) := sqfsCopyTop D w.h c
+      match h.crash, c2 with
+      | some cr, _ => ({ w with h := h }, s!"crash {cr.name}")
+      | none, none => ({ w with h := h }, "recopy NULL")
+      | none, some c2 =>
+        let h := sqfsDropF h c
+        let w := { w with h := h, objs := w.objs.set 1 (some c2) }
+        match h.crash with
+        | some cr => (w, s!"crash {cr.name}")
+        | none => (w, s!"recopy ok file={if w.envAlive then rcOf h w.file else 0} cmp={if w.envAlive then rcOf h w.cmp else 0}")
+    | none => (w, "no-object")
+  | ["copydrop", t] =>
+    -- one more copy while the others are alive, released at once (`copy_then_release_restores`)
+    match targetIx t with
+    | none => (w, "bad-op")
+    | some i =>
+      match w.obj i with
+      | none => (w, "no-object")
+      | some x =>
+        let (h, c2) := sqfsCopyTop D w.h x
+        match h.crash, c2 with
+        | some cr, _ => ({ w with h := h }, s!"crash {cr.name}")
+        | none, none => ({ w with h := h }, "copydrop NULL")
+        | none, some c2 =>
+          let h := sqfsDropF h c2
+          let w := { w with h := h }
+          match h.crash with
+          | some cr => (w, s!"crash {cr.name}")
+          | none => (w, s!"copydrop ok file={if w.envAlive then rcOf h w.file else 0} cmp={if w.envAlive then rcOf h w.cmp else 0}")
   | ["grab", t] =>
     match (targetIx t).bind w.obj with
     | some id => let h := grab w.h id; ({ w with h := h }, s!"grab {t} {rcOf h id}")
@@ -532,6 +567,90 @@ def unitStep (w : UWorld) (line : String) : UWorld × String :=
       | _, _, _ => (w, "bad-op")
   | _ => (w, "bad-op")
 
+/-! ### `unit-pool`: the `rbt` unit scenarios against /repo's default configuration (nodes from a pool allocator, one pool per
+tree): trees live in a `PStore`; `copy` = `rbCopyP` (own pool, every node of the copy from it), `drop` = `rbCleanupP` (the pool
+is unmapped: every node allocated from it is gone), every later answer is read back from the store — a copy whose nodes had
+come from the original's pool would answer `crash` after `drop o`. -/
+
+open Sqfs.Rb in
+structure PWorld where
+  cfg : Cfg
+  ps : PStore
+  objs : List (Option (Option Nat × Nat))     -- o, c: (root, pool)
+
+open Sqfs.Rb in
+def PWorld.init : PWorld := ⟨⟨0, 0, 0⟩, PStore.empty, [none, none]⟩
+
+open Sqfs.Rb Sqfs.Consts in
+def poolStep (w : PWorld) (line : String) : PWorld × String :=
+  let fuel := w.ps.st.next + 1
+  let rd (r : Option Nat) : Option Tree := readTree w.ps.st.cells fuel r
+  match words line with
+  | ["scenario", _, "rbt", ks, vs] =>
+    match ks.toNat?, vs.toNat? with
+    | some ks, some vs =>
+      match init ks vs with
+      | some c => (⟨c, PStore.empty.createPool.1, [some (none, PStore.empty.createPool.2), none]⟩, "scenario")
+      | none => (PWorld.init, "bad-op")
+    | _, _ => (PWorld.init, "bad-op")
+  | ["end"] => (PWorld.init, "end")
+  | "copy" :: _ | "failcopy" :: _ =>
+    let k : Option Nat := match words line with
+      | ["failcopy", ks] => ks.toNat?
+      | _ => none
+    match ((w.objs[0]?).join : Option (Option Nat × Nat)), ((w.objs[1]?).join : Option (Option Nat × Nat)) with
+    | some (root, pool), none =>
+      -- acquisitions of `rbtree_copy` in this configuration: 1 = `calloc` of the `mem_pool_t` (rbtree.c:212: error, `out` not
+      -- cleared), 2 = `mmap` of the pool's first block inside the first `mem_pool_allocate` (if there is a node to copy:
+      -- `copy_node` fails, `out` cleared)
+      if k = some 1 then (w, s!"copy {c19ErrAlloc} zeroed=0 failed=calloc")
+      else if k = some 2 ∧ root.isSome then (w, s!"copy {c19ErrAlloc} zeroed=1 failed=mmap")
+      else match rbCopyP w.cfg fuel w.ps root with
+        | none => (w, "crash")
+        | some (ps', root', pool') =>
+          let own := if pool' = pool then "alias" else "own"
+          let nodes := if ownedB ps'.st.cells ps'.owner pool' (ps'.st.next + 1) root' then "in" else "out"
+          ({ w with ps := ps', objs := w.objs.set 1 (some (root', pool')) }, s!"copy 0 kp={w.cfg.keyPad} alias=0 pool={own} nodes={nodes}")
+    | _, _ => (w, "bad-op")
+  | ["drop", t] =>
+    match uIx t with
+    | some i =>
+      match ((w.objs[i]?).join : Option (Option Nat × Nat)) with
+      | some (_, pool) => ({ w with ps := rbCleanupP w.ps pool, objs := w.objs.set i none }, "drop")
+      | none => (w, "no-object")
+    | none => (w, "bad-op")
+  | t :: op :: args =>
+    match uIx t with
+    | none => (w, "bad-op")
+    | some i =>
+      match ((w.objs[i]?).join : Option (Option Nat × Nat)), op, args with
+      | none, _, _ => (w, "no-object")
+      | some (root, pool), "ins", [k, v] =>
+        match fromHex k, fromHex v with
+        | some k, some v =>
+          match rd root with
+          | none => (w, "crash")
+          | some tr =>
+            let r := writeTreeP w.ps pool (insert w.cfg (fun a b => memCmp w.cfg a b == .lt) tr k v)
+            ({ w with ps := r.1, objs := w.objs.set i (some (r.2, pool)) }, "ins 0")
+        | _, _ => (w, "bad-op")
+      | some (root, _), "look", [k] =>
+        match fromHex k with
+        | some k =>
+          match rd root with
+          | none => (w, "crash")
+          | some tr =>
+            match tr.lookup (memCmp w.cfg) k with
+            | some n => (w, s!"look {n.1} {toHexTok n.2} key={toHexTok (keyOf w.cfg n)} value={toHexTok (valueOf w.cfg n)}")
+            | none => (w, "look none")
+        | none => (w, "bad-op")
+      | some (root, _), "dump", [] =>
+        match rd root with
+        | none => (w, "crash")
+        | some tr => (w, s!"dump ks={w.cfg.keySize} kp={w.cfg.keyPad} vs={w.cfg.valueSize} wf={if wfTreeB w.cfg tr then 1 else 0} tree={treeTok tr}")
+      | _, _, _ => (w, "bad-op")
+  | _ => (w, "bad-op")
+
 def run (args : List String) : IO Unit := do
   let out ← IO.getStdout
   match args with
@@ -549,6 +668,7 @@ def run (args : List String) : IO Unit := do
   | ["tbl"] => stateLoop (← IO.getStdin) out Kinds.tblStep Kinds.TblWorld.init
   | ["copystate"] => lineLoop (← IO.getStdin) out copyStep
   | ["unit"] => stateLoop (← IO.getStdin) out unitStep UWorld.init
+  | ["unit-pool"] => stateLoop (← IO.getStdin) out poolStep PWorld.init
   | _ => stateLoop (← IO.getStdin) out (step desc) World.init
 
 end Driver.C19
